@@ -189,9 +189,10 @@ Definition h_append_entries (now : N) (n : node) (q : ae_req) : node * option ae
       | None => (fail Fatal n3, None)
       | Some (n4, to_append) =>
           let n5 := append_entries n4 to_append in
-          let n6 := if n_commit n5 <? ae_commit q
-                    then signal_apply (n5 <| n_commit := N.min (ae_commit q) (last_index (n_log n5)) |>)
-                    else n5 in
+          (* fix: D18 - the commit index follows the leader only up to the last entry of this request *)
+          let verified := ae_prev_index q + N.of_nat (length (ae_entries q)) in
+          let c := N.min (ae_commit q) verified in
+          let n6 := if n_commit n5 <? c then signal_apply (n5 <| n_commit := c |>) else n5 in
           (n6, Some {| aer_term := n_term n6; aer_success := true; aer_index := 0 |})
       end
   end.
@@ -242,6 +243,12 @@ Definition h_install_snapshot (now : N) (n : node) (q : is_req) : node * option 
   let n3 := n2 <| n_contact := now |> in
   let reply n' w := (n', Some {| isr_term := rterm; isr_written := w |}) in
   if (is_lii q <=? n_lii n3) || (is_lii q <=? n_applied n3) then reply n3 0 else
+  (* fix: D10 - a chunk of a snapshot other than the one being received is ignored *)
+  let stale := match n_partial n3 with
+               | Some p => negb (s_index p <? is_lii q) && negb ((s_index p =? is_lii q) && (s_term p =? is_lit q))
+               | None => false
+               end in
+  if stale then reply n3 0 else
   let n4 := match n_partial n3 with
             | Some p => if s_index p <? is_lii q then n3 <| n_partial := None |> else n3
             | None => n3
